@@ -25,6 +25,8 @@ MSGS = {
     'OPEN_badver': (peer_open(ver=3), dict(kind='OPEN', ver=3, asn=65002, hold=90)),
     'OPEN_badas': (peer_open(asn=65009), dict(kind='OPEN', ver=4, asn=65009, hold=90)),
     'OPEN_nocap': (peer_open(caps=None), dict(kind='OPEN', ver=4, asn=65002, hold=90)),
+    # a recognized capability (4-octet AS) whose value has the wrong length: malformed optional parameter
+    'OPEN_badcap': (peer_open(caps=[(1, struct.pack('!HBB', 1, 0, 1)), (65, b'\x00\x01')]), dict(kind='OPEN', ver=4, asn=65002, hold=90, malformed=True)),
     'KA': (KEEPALIVE, dict(kind='KA')),
     'UPD': (UPD_EMPTY, dict(kind='UPD')),
     'UPD1': (UPD_ROUTE, dict(kind='UPD')),
@@ -55,7 +57,7 @@ MSGS = {
     'RR_orf': (frame(5, b'\x00\x01\x00\x01' + b'\x01\x40\x00\x01\x00'), dict(kind='RR')),
 }
 ODD_LENGTH = ['OPEN_short', 'UPD_short', 'NOTI_short', 'KA_long', 'RR_short', 'RR_orf']
-ALPHABET_C01 = ['OPEN', 'OPEN_h0', 'OPEN_h1', 'OPEN_h2', 'OPEN_h9', 'OPEN_badver', 'OPEN_badas',
+ALPHABET_C01 = ['OPEN', 'OPEN_h0', 'OPEN_h1', 'OPEN_h2', 'OPEN_h9', 'OPEN_badver', 'OPEN_badas', 'OPEN_badcap',
                 'KA', 'UPD', 'UPD1', 'UPD_unkfam', 'UPD_malformed', 'UPD_wdoverrun', 'NOTI_VER', 'NOTI_CEASE', 'NOTI_HDR', 'NOTI_UPD', 'NOTI_HOLD', 'NOTI_FSM', 'NOTI_RR', 'NOTI_UNK', 'RR', 'BADMARK', 'BADLEN', 'BADLEN0',
                 'BADLEN4097', 'BADTYPE']
 ALPHABET_SMALL = ['OPEN', 'OPEN_h1', 'OPEN_badas', 'KA', 'UPD', 'NOTI_VER', 'NOTI_CEASE', 'BADMARK']
